@@ -29,6 +29,9 @@ type Verdict struct {
 	Fail  error // return this error without effect
 	Short int   // >0 for writes: write only this many bytes, then return ErrShort... (0 = off)
 	Crash bool  // stop here: panic(Crash{}) before the operation; later mutating calls are refused
+	// CrashAfterShort (with Short): the process dies in the middle of the write,
+	// after Short bytes reached the file
+	CrashAfterShort bool
 }
 
 // Crash is the panic value of an injected crash.
@@ -302,6 +305,10 @@ func (f *File) Write(b []byte) (int, error) {
 	}
 	if v.Short > 0 && v.Short < len(b) {
 		n, _ := f.f.Write(b[:v.Short])
+		if v.CrashAfterShort {
+			crashed = true
+			panic(Crash{Op{Kind: "write", Path: f.name, N: n}})
+		}
 		return n, &fs.PathError{Op: "write", Path: f.name, Err: syscall.ENOSPC}
 	}
 	return f.f.Write(b)
